@@ -96,12 +96,25 @@ def install(eng):
     # mtimes are finite reals (no NaN / inf): trusted, listed in every evidence file that uses it
     eng.axiom("fs", z3.ForAll([fs, p], z3.And(-eng.INF < vc.f_mtime(fs, p), vc.f_mtime(fs, p) < eng.INF)))
 
-    # ---- spec hashes (interface level)
-    eng.cls("SpecHashes")
-    eng.classes["SpecHashes"].fields["chg"] = T.SetT(vc.Target)
+    # ---- spec hashes: one hierarchy (SpecHashes <- FileSpecHashes, NoopSpecHashes), concrete view
+    eng.cls("SpecHashes", fields={"hashes": T.DictT(vc.Name, vc.Hash)}, consts={"is_file": T.BOOL, "path": vc.Path})
+    eng.cls("FileSpecHashes", bases=["SpecHashes"], root="SpecHashes", pyname="gwf.core:FileSpecHashes")
+    eng.cls("NoopSpecHashes", bases=["SpecHashes"], root="SpecHashes", pyname="gwf.core:NoopSpecHashes")
+    vc.FileHashes = T.ObjT("FileSpecHashes", root="SpecHashes")
+    vc.NoopHashes = T.ObjT("NoopSpecHashes", root="SpecHashes")
+    vc.f_sha1 = z3.Function("Sha1", vc.SpecText.sort(), vc.Hash.sort())      # hashlib.sha1(...).hexdigest(): trusted
+    eng.fn("Sha1")(lambda e, st, s_: V(vc.Hash, vc.f_sha1(s_.z)))
+    HD = T.DictT(vc.Name, vc.Hash)
+    f_isfile = eng.const_fn("SpecHashes", "is_file", T.BOOL)
+    f_tname = eng.const_fn("Target", "name", vc.Name)
+    f_tspec = eng.const_fn("Target", "spec", vc.SpecText)
 
     def changed(st, H, t):
-        return z3.Select(z3.Select(st.heap[("SpecHashes", "chg")], H), t)
+        """C18: with hashing on, no record for the target's name or a record different from sha1(spec)"""
+        h = z3.Select(st.heap[("SpecHashes", "hashes")], H)
+        nm = f_tname(t)
+        return z3.And(f_isfile(H), z3.Or(z3.Not(z3.Select(HD.dom(h), nm)),
+                                         z3.Select(HD.vals(h), nm) != vc.f_sha1(f_tspec(t))))
 
     vc.changed = changed
     eng.fn("Changed")(lambda e, st, H, t: V(T.BOOL, changed(st, H.z, t.z)))
@@ -187,7 +200,44 @@ def install(eng):
     eng.ghost("log_pos", T.DictT(vc.Target, T.INT))
     eng.ghost("log_deps", T.MapT(vc.Target, TS))
     eng.ghost("log_n", T.INT)
-    eng.ghost("bnow", T.MapT(vc.Target, vc.BStatus))
+    # ---- the tracking backend (C07-C09): one class, parameterised by its scheduler operations
+    vc.Backend = T.ObjT("Backend")
+    vc.Ops = T.ObjT("Ops")
+    vc.OptKey, vc.OptVal = T.Atom("OptKey"), T.Atom("OptVal")
+    vc.Options = T.DictT(vc.OptKey, T.Opt(vc.OptVal))
+    TJ, JS = T.DictT(vc.Name, vc.JobId), T.DictT(vc.JobId, vc.BStatus)
+    vc.TrackedT, vc.JobStatesT = TJ, JS
+    eng.cls("Ops", consts={"target_defaults": vc.Options, "working_dir": vc.Path})
+    eng.cls("Backend", pyname="gwf.backends.base:TrackingBackend",
+            fields={"_tracked_jobs": TJ, "_job_states": JS},
+            consts={"working_dir": vc.Path, "name": vc.Name, "ops": vc.Ops, "target_defaults": vc.Options})
+    eng.classes["Target"].fields["options"] = vc.Options
+    eng.universe("Backend", vc.Backend)
+    eng.universe("JobId", vc.JobId)
+    vc.the_backend = z3.Const("the_backend", vc.Backend.sort())     # the backend object of this invocation
+    eng.spec_consts["the_backend"] = V(vc.Backend, vc.the_backend)
+    vc.dry_mode = z3.Const("dry_mode", z3.BoolSort())                # the submit callback in use does not submit
+    eng.spec_consts["dry_mode"] = V(T.BOOL, vc.dry_mode)
+
+    def bstat(st, b, t):
+        """C08: the scheduler state of the job id tracked for the target's name, UNKNOWN when absent"""
+        tj = z3.Select(st.heap[("Backend", "_tracked_jobs")], b)
+        js = z3.Select(st.heap[("Backend", "_job_states")], b)
+        nm = f_tname(t)
+        jid = z3.Select(TJ.vals(tj), nm)
+        return z3.If(z3.And(z3.Select(TJ.dom(tj), nm), z3.Select(JS.dom(js), jid)), z3.Select(JS.vals(js), jid),
+                     B.const("UNKNOWN"))
+
+    vc.bstat = bstat
+    eng.fn("BStat")(lambda e, st, b, t: V(vc.BStatus, bstat(st, b.z, t.z)))
+    eng.fn("BNow")(lambda e, st, t: V(vc.BStatus, bstat(st, vc.the_backend, t.z)))
+
+    def tracked(st, b, t):
+        tj = z3.Select(st.heap[("Backend", "_tracked_jobs")], b)
+        return z3.Select(TJ.dom(tj), f_tname(t))
+
+    eng.fn("Tracked")(lambda e, st, t: V(T.BOOL, tracked(st, vc.the_backend, t.z)))
+    eng.fn("DepOK")(lambda e, st, t: V(T.BOOL, z3.Or(vc.dry_mode, tracked(st, vc.the_backend, t.z))))
     # interface view of a spec-hash store: the set of targets whose spec differs from the record
     vc.FnRef = FnRef
 
